@@ -31,8 +31,31 @@ pub fn sig_list() -> Vec<i32> {
     v
 }
 
+/// The forbidden signals as the property states them (not read from the library).
 pub fn forbidden(s: i32) -> bool {
-    signal_hook_registry::FORBIDDEN.contains(&s)
+    [libc::SIGKILL, libc::SIGSTOP, libc::SIGILL, libc::SIGFPE, libc::SIGSEGV].contains(&s)
+}
+
+// Interposed close(): counts application-level close calls per descriptor number (C13).
+pub static CLOSE_COUNT: [std::sync::atomic::AtomicU32; 1024] = {
+    const Z: std::sync::atomic::AtomicU32 = std::sync::atomic::AtomicU32::new(0);
+    [Z; 1024]
+};
+
+#[no_mangle]
+pub extern "C" fn close(fd: libc::c_int) -> libc::c_int {
+    if fd >= 0 && (fd as usize) < 1024 {
+        CLOSE_COUNT[fd as usize].fetch_add(1, std::sync::atomic::Ordering::SeqCst);
+    }
+    unsafe { libc::syscall(libc::SYS_close, fd) as libc::c_int }
+}
+
+pub fn close_count(fd: i32) -> u32 {
+    if fd >= 0 && (fd as usize) < 1024 {
+        CLOSE_COUNT[fd as usize].load(std::sync::atomic::Ordering::SeqCst)
+    } else {
+        0
+    }
 }
 
 pub fn dispositions() -> Vec<(usize, i32)> {
